@@ -29,7 +29,13 @@ type Op struct {
 	E               int64  `json:"e,omitempty"` // 0 = MAX
 	ErrIfControlled bool   `json:"err_if_controlled,omitempty"`
 	ErrUnauthorized bool   `json:"err_unauthorized,omitempty"`
+	// ResourceFails: should this open start a region of its own, creating the region's
+	// resource fails (a storage error in the caller's OpenResource): the open must fail and
+	// leave no trace
+	ResourceFails bool `json:"resource_fails,omitempty"`
 }
+
+var errResource = errors.New("verif: the region's resource cannot be created")
 
 type Script struct {
 	Shared bool `json:"shared"`
@@ -199,7 +205,8 @@ func genScript(t *rapid.T) Script {
 		}
 		switch k {
 		case "open":
-			op := Op{Kind: "open", G: next, Subject: rapid.SampledFrom([]string{"a", "b", "c", "d", "e"}).Draw(t, "subject"), Authority: auth.Draw(t, "authority")}
+			op := Op{Kind: "open", G: next, Subject: rapid.SampledFrom([]string{"a", "b", "c", "d", "e"}).Draw(t, "subject"), Authority: auth.Draw(t, "authority"),
+				ResourceFails: rapid.IntRange(0, 7).Draw(t, "resource-fails") == 0}
 			op.S = int64(rapid.IntRange(1, 60).Draw(t, "s"))
 			switch rapid.IntRange(0, 9).Draw(t, "rangekind") {
 			case 0, 1: // bounded (deletes, preset-end writers)
@@ -210,8 +217,17 @@ func genScript(t *rapid.T) Script {
 			op.ErrIfControlled = rapid.IntRange(0, 9).Draw(t, "eic") == 0
 			op.ErrUnauthorized = rapid.IntRange(0, 5).Draw(t, "eou") == 0
 			next++
+			ge := op.E
+			if ge == 0 {
+				ge = tmax
+			}
+			if op.ResourceFails && len(m.overlapping(op.S, ge)) > 0 {
+				op.ResourceFails = false // the open joins an existing region: no resource is created
+			}
 			sc.Ops = append(sc.Ops, op)
-			m.expectOpen(op, sc.Shared)
+			if !op.ResourceFails {
+				m.expectOpen(op, sc.Shared)
+			}
 		case "set":
 			id := pick()
 			op := Op{Kind: "set", G: id, Authority: auth.Draw(t, "authority")}
@@ -282,8 +298,23 @@ func execute(sc Script, rep *kit.Report) error {
 				TimeRange:             telem.TimeRange{Start: telem.TimeStamp(op.S), End: e},
 				ErrIfControlled:       &eic,
 				ErrOnUnauthorizedOpen: &eou,
-				OpenResource:          func() (*res, error) { opened++; return &res{}, nil },
+				OpenResource: func() (*res, error) {
+					opened++
+					if op.ResourceFails {
+						return nil, errResource
+					}
+					return &res{}, nil
+				},
 			})
+			if op.ResourceFails && opened > 0 {
+				// the region's resource could not be created: nothing may have changed (the model
+				// is not told about the open at all)
+				rep.Class("open-failed:resource-creation")
+				if oerr == nil {
+					return kit.Fail("open-should-fail:resource-creation", "%s: OpenGate succeeded although OpenResource returned an error", where)
+				}
+				break
+			}
 			refused, why, from, to := m.expectOpen(op, sc.Shared)
 			if refused {
 				rep.Class("open-refused:" + why)
@@ -309,6 +340,10 @@ func execute(sc Script, rep *kit.Report) error {
 			}
 		case "set":
 			g := m.gates[op.G]
+			if g == nil || real[op.G] == nil {
+				rep.Class("op-on-gate-that-was-not-opened")
+				continue
+			}
 			from := stateOf(g.region.holder())
 			g.authority = op.Authority
 			to := stateOf(g.region.holder())
@@ -320,6 +355,10 @@ func execute(sc Script, rep *kit.Report) error {
 				rep.Class("holder-changed-by-set-authority")
 			}
 		case "release":
+			if m.gates[op.G] == nil || real[op.G] == nil {
+				rep.Class("op-on-gate-that-was-not-opened")
+				continue
+			}
 			from, to, wasHolder := m.release(op.G)
 			_, t := real[op.G].Release()
 			delete(real, op.G)
